@@ -1,12 +1,19 @@
 import FV.Props.C03
+import FV.AssignSafe
+import FV.SizeView
+import FV.ErrLaw
 /-! # C18 — a failed in-place assignment leaves a valid value behind
 
 `assign_in_place` runs the emplacer unchecked on the bytes of the current value. The property holds for the container
 emplacers (they write a consistent header before and after filling), and the theorems below prove that for every
 element / item type. It does **not** hold for every generated `…Init`: the code writes tag and sized fields before it
 knows whether the last field's emplacer will succeed (known findings F17, F8c in `known_findings.json`); the model
-follows the code, and `C18_nested_enum_counterexample` proves the failure in the model for the recorded witness, so the
-general statement stays unproved (`_partial`) on purpose. -/
+follows the code, and `C18_nested_enum_counterexample` proves the failure in the model for the recorded witness.
+
+`C18_failed_assign_leaves_valid` is the positive half at full generality: for the class `AssignOK` — every type except an
+unsized enum with a variant whose last field is (or ends in) another unsized enum, and a struct ending in such a field — a failed
+`assign_in_place` leaves a valid value, for every initialiser and every valid target. The counterexample lies just outside that
+class, so the class is sharp. -/
 namespace FV.Props
 open FV
 
@@ -49,4 +56,42 @@ theorem C18_nested_enum_counterexample :
     assign Outer (.uenum 1 [[1]] (some (.uenum 1 [] (some (.vecArr [[1],[2],[3]]))))) ⟨0, [0,0xEE,0xEE,0xEE,7,7,7,7]⟩ =
       .ok ⟨[1,0xEE,0xEE,0xEE,1,7,7,7], .error ⟨.insufficientSize, 2⟩⟩ ∧
     Outer.dict.validate ⟨0, [1,0xEE,0xEE,0xEE,1,7,7,7]⟩ = .err ⟨.invalidEnumTag, 6⟩ := by decide +kernel
+
+/-- **C18 (the target is still a valid value), for every type of the class `AssignOK`.** `AssignOK t` holds for sized values,
+`FlatVec`, `FlatString`, `FlexVec` (of anything), an unsized struct whose last field is a container or again such a struct, and an
+unsized enum each of whose variants ends — if it has an unsized field at all — in such a field (`GSafe`). For every such type,
+every well-typed initialiser and every slice holding a valid value: `assign_in_place` never faults, keeps the length, and —
+**whether it returns `Ok` or `Err`** — leaves bytes that validate, so the value can be inspected, measured and assigned again. -/
+theorem C18_failed_assign_leaves_valid (t : Ty) (h : t.WF) (hok : AssignOK t) (i : Init) (hw : InitWT t i) (s : Slice)
+    (hv : t.dict.validate s = .ok ()) :
+    ∃ o, assign t i s = .ok o ∧ o.bytes.length = s.len ∧ t.dict.validate ⟨s.addr, o.bytes⟩ = .ok () := by
+  obtain ⟨ha, hl, _⟩ := validate_ok_iff.1 hv
+  obtain ⟨z, v, _, hvw, _, hvle, hown⟩ := own_bytes_validate t h s hv
+  obtain ⟨ha', hl', hu'⟩ := validate_ok_iff.1 hown
+  obtain ⟨o, ho, hol, hval⟩ := emplaceU_assign_valid i t h hw hok (s.take v) ha' hl' hu'
+  have hol' : o.bytes.length = v := by simp only [Slice.len_take] at hol; omega
+  have hsl : s.len = s.bytes.length := rfl
+  refine ⟨⟨o.bytes ++ s.bytes.drop v, o.res⟩, by simp only [assign, hvw, Res.bind_ok, ho], ?_, ?_⟩
+  · simp only [List.length_append, List.length_drop, hol']; omega
+  · have hx : Ext ⟨s.addr, o.bytes⟩ ⟨s.addr, o.bytes ++ s.bytes.drop v⟩ :=
+      ⟨rfl, by simp [Slice.len], by simp [Slice.len]⟩
+    have hmin : t.dict.minSize ≤ (⟨s.addr, o.bytes⟩ : Slice).len := by
+      simp only [Slice.len, hol']; simp only [Slice.len_take] at hl'; omega
+    exact validate_ok_iff.2 ⟨ha, by simp only [Slice.len, List.length_append, List.length_drop, hol']; omega,
+      (Ty.frameLaw t h).ext (by simpa using ha') hmin hx (by simpa using hval)⟩
+
+/-- the class is sharp: `Outer` of the counterexample is the smallest shape outside it … -/
+example : ¬ AssignOK Outer := by
+  simp only [AssignOK, Outer]
+  intro hh
+  exact hh [u8, Inner] (by simp) Inner (by simp) 
+/-- … while `E1` (variants ending in a `FlatVec`), `S1` and `FlexVec<S1>` are inside -/
+example : AssignOK E1 ∧ AssignOK S1 ∧ AssignOK FlexS1 := by
+  refine ⟨?_, ?_, ?_⟩
+  · simp only [AssignOK, E1]
+    intro v hv lt hlt
+    simp only [List.mem_cons, List.not_mem_nil, or_false] at hv
+    rcases hv with rfl | rfl | rfl | rfl <;> simp at hlt <;> subst hlt <;> simp [GSafe, u16, u32]
+  · simp [AssignOK, S1, GSafe]
+  · simp [AssignOK, FlexS1]
 end FV.Props
